@@ -138,9 +138,9 @@ MANIFEST_TEXT = {
 }
 
 PROPS['C11'] = P(
-    ['quiescent_after_every_tree', 'quiescent_between_trees', 'runner_invariant', 'tracker_invariant', 'no_unpolled_removal_or_despawn_when_a_tree_returns'],
+    ['quiescent_after_every_tree', 'quiescent_between_trees', 'runner_invariant', 'tracker_invariant', 'no_unpolled_removal_or_despawn_when_a_tree_returns', 'no_event_data_entity_left'],
     ['recursion', 'stale', 'mixed'], 'quiescent', determined=True,
-    assumes=['data entities (DataEntityCounter / SystemEventData) being gone at quiescence is checked by the correspondence (snapshot data=0) and the m_quiescent monitor, not yet by a theorem',
+    assumes=['data entities (DataEntityCounter / SystemEventData) being gone when a run ends is a theorem (no_event_data_entity_left, from the count bound of DataSpec) and is also compared (snapshot data=0) and monitored (m_quiescent)',
              'obs_indep_history ("a tree behaves the same whatever ran before") follows informally from quiescence + ticket-independence of observations; not stated as a theorem'])
 PROPS['C18'] = P(
     ['never_panics', 'aborted_command_is_cleaned_up', 'remaining_registrations_work', 'still_quiescent'],
@@ -155,8 +155,8 @@ PROPS['C02'] = P(
     ['recursion', 'mixed', 'stale'], 'runs', determined=True,
     assumes=['exactly-once is a theorem for every command that parks event data (unique ticket: set up exactly once, by its run or by the abort path) and, in counting form per target system, for the commands that draw no ticket (plain system commands, resource reactions: applied = set up over the whole run); the count of start / abort lines of the event log and termination rest on the correspondence (runner event sink) and the m_runs monitor'])
 MANIFEST_TEXT['C11'] = (
- "Machine-checked: for every program and every sequence of trees, when a top-level operation returns the tree counter is 0, the postponed-command buffer is empty, every system command has its callback back, all four trackers have no pending metadata and no reacting flag, and the despawn tracker holds no handle (run_quiescent_full), from two invariants proved for every interpreter instruction with a ghost calling context (exec_runner, exec_ticket). Tied to /repo by differential runs comparing the bookkeeping snapshot (hook) after every top-level op, plus the m_quiescent monitor on implementation logs.",
- "Trusted: Coq kernel; model faithfulness (differential); Bevy semantics as modelled. Absence of leftover data entities and history-independence are not theorems yet (snapshot data=0 compared on every run).",
+ "Machine-checked: for every program and every sequence of trees, when a top-level operation returns the tree counter is 0, the postponed-command buffer is empty, every system command has its callback back, all four trackers have no pending metadata and no reacting flag, and the despawn tracker holds no handle (run_quiescent_full), whenever the runner returns no removal record is unread and the despawn channel is empty, and when a run ends no event data entity is left (count bound of DataSpec) — from two invariants proved for every interpreter instruction with a ghost calling context (exec_runner, exec_ticket). Tied to /repo by differential runs comparing the bookkeeping snapshot (hook) after every top-level op, plus the m_quiescent monitor on implementation logs.",
+ "Trusted: Coq kernel; model faithfulness (differential); Bevy semantics as modelled. No event data entity is left when a run ends (theorem, DataSpec); history-independence is not a theorem.",
  "Coq proof (invariants over the interpreter with ghost context) + model/implementation correspondence + monitor", "DESIGN.md §5 C11")
 MANIFEST_TEXT['C18'] = (
  "Machine-checked: no program can make the model panic other than through Bevy's own B0003 spawn misuse (run_never_panics: setup never misses its tracker entry, no double start, callbacks present), an aborted command consumes exactly its own metadata, tables stay well formed and the tree ends quiescent. Tied to /repo by differential runs of the stale/lifetime profiles (operations on dead or never-spawned systems, entities, targets) under catch_unwind, with the m_panic, m_quiescent and m_payloads monitors.",
@@ -234,12 +234,13 @@ PROPS['C05'] = P(
      'entity_event_counter_starts_at_number_of_readers_partial', 'payload_kept_while_readers_remain_partial',
      'entity_event_payload_kept_while_readers_remain_partial', 'last_reader_releases_partial', 'system_event_data_released_by_cleanup_partial',
      'one_decrement_per_cleanup_partial', 'skipped_reader_still_cleans_up_partial', 'no_reader_is_lost_partial', 'every_scheduled_reader_is_set_up_exactly_once',
-     'every_counted_reader_of_a_broadcast_is_parked', 'every_counted_reader_of_an_entity_event_is_parked'],
+     'every_counted_reader_of_a_broadcast_is_parked', 'every_counted_reader_of_an_entity_event_is_parked',
+     'count_never_exceeds_the_readers_to_come', 'recorded_data_entities_are_alive_everywhere', 'no_event_data_entity_outlives_the_run'],
     ['stale', 'recursion', 'lifetime', 'mixed'], 'payloads', determined=False,
-    assumes=['PARTIAL: the theorems cover every step of the release protocol for all states (initial count, one decrement per cleanup, release at zero, abort path, setup never fails) but not the global count over a whole tree — that every queued reaction command reaches its cleanup exactly once, so the payload is dropped exactly once, after the last scheduled reader and not before. The global claim rests on the correspondence (every payload drop is a compared log line; the number of live data entities is compared after every top-level op) and on the m_payloads monitor',
+    assumes=['PARTIAL: step-level protocol for all states; whole executions: counted readers all parked, every parked command set up exactly once, count <= readers still to come at every instruction boundary, no data entity left when a run ends. Not proved: the converse inequality (no release before the last scheduled reader has run) and exactly-once as a count over the log. That rests on the correspondence (every payload drop is a compared log line; the number of live data entities is compared after every top-level op) and on the m_payloads monitor',
              'the data-entity spawn (CSpawnData) is a separate deferred command, as in the crate'])
 MANIFEST_TEXT['C05'] = (
- "Partial proof. Machine-checked for all states: an unheard broadcast / entity event drops its payload at once and creates no bookkeeping entity or command; otherwise the counter of the fresh data entity equals the number of reaction commands queued behind it; every cleanup performs exactly one decrement, which leaves entity and payload untouched while the counter stays positive and despawns the entity — dropping the payload — when it reaches zero; the cleanup of a system-event command despawns its data entity; a skipped (aborted) reader still runs setup and cleanup and setup never fails; over whole executions every reaction command a trigger queues (as many as the counter starts with) is parked, in order, with the data entity as its parked item before the trigger command returns, and every parked command is set up exactly once (run or abort), never lost and never twice. The counter equation itself (counter = parked readers not yet cleaned up at every point, so release happens exactly after the last one and no entity outlives the tree) is not a theorem: it is checked by differential runs comparing every payload drop position and the number of live data entities after every top-level op (stale profile: listeners revoked, despawned or missing between scheduling and running), plus the m_payloads monitor.",
+ "Partial proof. Machine-checked for all states: an unheard broadcast / entity event drops its payload at once and creates no bookkeeping entity or command; otherwise the counter of the fresh data entity equals the number of reaction commands queued behind it; every cleanup performs exactly one decrement, which leaves entity and payload untouched while the counter stays positive and despawns the entity — dropping the payload — when it reaches zero; the cleanup of a system-event command despawns its data entity; a skipped (aborted) reader still runs setup and cleanup and setup never fails; over whole executions every reaction command a trigger queues (as many as the counter starts with) is parked, in order, with the data entity as its parked item before the trigger command returns, and every parked command is set up exactly once (run or abort), never lost and never twice. The leak-freedom half of the counter equation is a theorem for whole executions, with no assumption on the program: at every instruction boundary the count a live data entity carries never exceeds the readers still to come (parked entries + open window + reaction commands queued in the instruction + what the calling context owes), hence when a run ends no event data entity is left at all. The converse (the count is never below the readers still to come: no release while a scheduled reader has yet to run) is not a theorem: it is checked by differential runs comparing every payload drop position and the number of live data entities after every top-level op (stale profile: listeners revoked, despawned or missing between scheduling and running), plus the m_payloads monitor.",
  "Trusted: Coq kernel; model faithfulness (differential); Bevy semantics as modelled. Partial: the exactly-once / not-before-the-last-reader claim over whole trees is correspondence + monitor.",
  "Coq proof of the step-level protocol (partial) + model/implementation correspondence on drop positions and data-entity counts + monitor", "DESIGN.md §5 C05")
 
